@@ -3,6 +3,7 @@ package props
 import (
 	"fmt"
 	"strings"
+	"time"
 
 	"pgregory.net/rapid"
 	"verif/harness/engine"
@@ -63,7 +64,7 @@ func runC16(ci interface{}) Result {
 	}
 	var tr *engine.Trace
 	for i := 0; i < n; i++ {
-		tr = engine.Run(sc, engine.Options{LeakCheck: i == n-1})
+		tr = engine.Run(sc, engine.Options{LeakCheck: i == n-1, LeakStable: 400 * time.Millisecond})
 		if tr.Inconclusive != "" {
 			r.Inconclusive = true
 			return r
